@@ -174,9 +174,20 @@ theorem c07_reader_sound_partial (c : Cfg) (s : St) (h : Reachable c s) (i l : N
 /-- **Defect witness (reader unsound for NOT).**  `addLIDsToTokens` queues `_all_` first; a reader whose mapping
 snapshot falls between that call and the call for token 5 sees the new document in the universe but not in the
 token's list, so `NOT 5` returns LID 1 although document 1 carries token 5. -/
-theorem c07_reader_unsound_not (live : Bool) :
-    ∃ s, run ⟨false, live⟩ init witnessNot = some s ∧ (s.rs 0).result = [1] ∧ (s.rs 0).q = .not (.tok 5) ∧
+theorem c07_reader_unsound_not (live lk : Bool) :
+    ∃ s, run ⟨false, live, lk⟩ init witnessNot = some s ∧ (s.rs 0).result = [1] ∧ (s.rs 0).q = .not (.tok 5) ∧
       s.sh.ids[1]? = some ⟨1, 2, [5]⟩ ∧ sat (.not (.tok 5)) ⟨1, 2, [5]⟩ = false := by
+  cases live <;> cases lk <;> decide
+
+/-- **Defect witness (token registration).**  Even with `_all_` queued last: `TokenList.Append` of bulk 0 has created
+token 5 (`getTokenLIDs`) but not yet registered it (`createTIDs` / `fillFieldTIDs`) when bulk 1, which met the token
+as existing, has queued all its LIDs; a reader's `FindPattern` finds no token 5, its list is empty, and `NOT 5`
+returns LID 1 = document (1,2) that carries token 5.  Impossible once `Append` is one critical section:
+the same schedule is then not a path (`wTokGet 1` has to wait). -/
+theorem c07_reader_unsound_dict (live : Bool) :
+    (∃ s, run ⟨true, live, false⟩ init witnessDict = some s ∧ (s.rs 0).result = [1] ∧
+      s.sh.ids[1]? = some ⟨1, 2, [5]⟩ ∧ sat (.not (.tok 5)) ⟨1, 2, [5]⟩ = false) ∧
+    run ⟨true, live, true⟩ init witnessDict = none := by
   cases live <;> decide
 
 /-- **reader never indexes out of range**: every LID of the mapping is below both ID snapshots (`Revert` /
@@ -210,9 +221,9 @@ theorem c07_fetch_snapshot (c : Cfg) (s s' : St) (i : Nat) (hs : step c s (.rBlo
 
 /-- **Defect witness (DESIGN section 7 row 12).**  Provider created (blocks snapshot = 1), then a bulk appends
 block 1 and its positions, then the fetch looks one of its IDs up: `blocksOffsets[1]` on a snapshot of length 1. -/
-theorem c07_fetch_panic_witness (allLast : Bool) :
-    ∃ s, run ⟨allLast, false⟩ init witnessFetch = some s ∧ (s.rs 0).fetched = [((1, 2), .panic)] := by
-  cases allLast <;> decide
+theorem c07_fetch_panic_witness (allLast lk : Bool) :
+    ∃ s, run ⟨allLast, false, lk⟩ init witnessFetch = some s ∧ (s.rs 0).fetched = [((1, 2), .panic)] := by
+  cases allLast <;> cases lk <;> decide
 
 /-- **the repaired fetch** (`live = true`: `GetBlocksOffsets` re-reads `DocBlocks` when the index is past the
 snapshot): a stored position always points below the current length, so no fetch of any ID at any moment, through
@@ -239,11 +250,11 @@ theorem c07_writer_lids (c : Cfg) (s : St) (h : Reachable c s) (i : Nat) (t : Op
 
 /-- non-vacuity of `c07_reader_sound_partial`: a search that overlaps a second bulk returns the first document -/
 example : ∀ c, ∃ s, run c init
-    [.wNew 0 [⟨3, 1, [5, 6]⟩, ⟨4, 1, [6]⟩], .wBlock 0, .wPos 0, .wIds 0, .wToks 0, .wQueue 0, .wQueue 0, .wQueue 0,
+    [.wNew 0 [⟨3, 1, [5, 6]⟩, ⟨4, 1, [6]⟩], .wBlock 0, .wPos 0, .wIds 0, .wTokGet 0, .wToks 0, .wQueue 0, .wQueue 0, .wQueue 0,
      .wStats 0, .wDone 0, .wNew 1 [⟨3, 2, [5]⟩], .rNew 0 (.and (.tok 6) (.tok 5)) 0 10, .rInfo 0, .wBlock 1, .rBlocks 0,
-     .wPos 1, .wIds 1, .rMapping 0, .wToks 1, .wQueue 1, .rMids 0, .rRids 0, .rLeaf 0, .wQueue 1, .rLeaf 0, .rEval 0]
+     .wPos 1, .wIds 1, .rMapping 0, .wTokGet 1, .wToks 1, .wQueue 1, .rMids 0, .rRids 0, .rLeaf 0, .wQueue 1, .rLeaf 0, .rEval 0]
       = some s ∧ (s.rs 0).result = [0] := by
-  intro c; rcases c with ⟨_ | _, _ | _⟩ <;> decide
+  intro c; rcases c with ⟨_ | _, _ | _, _ | _⟩ <;> decide
 
 end ActiveConc
 
@@ -256,6 +267,11 @@ block -> positions -> ids -> token entries -> LID queues -> stats -> Done -/
 theorem c07_x_writer_order :
     appendWorkerOrder = ["DocBlocks.Append", "DocsPositions.SetMultiple", "AppendIDs", "TokenList.Append",
       "addLIDsToTokens", "UpdateStats", "Wg.Done"] := by decide
+
+/-- `TokenList.Append` creates the token objects, then the TIDs, then the per-field lists (the model's `wTokGet` /
+`wToks`); whether the whole of it is one critical section is read off as `SV.C07.cfg.tlLock` -/
+theorem c07_x_token_list_append :
+    tokenListAppendOrder = ["getTokenLIDs", "createTIDs", "fillFieldTIDs", "fillSizes"] := by decide
 
 /-- `getIDsIndex` takes the mapping first, then MIDs, then RIDs -/
 theorem c07_x_reader_order :
